@@ -9,7 +9,7 @@ for a in sys.argv[1:]:
     if a.startswith('--props'):
         props_arg = a.split('=', 1)[1]
 if not seeds:
-    seeds = sorted(os.listdir(V + '/seeded'))
+    seeds = sorted(s for s in os.listdir(V + '/seeded') if os.path.exists(V + '/seeded/' + s + '/meta.json'))
 man = json.load(open(V + '/MANIFEST.json')) if os.path.exists(V + '/MANIFEST.json') else {'checks': []}
 claimed = [c['property_id'] for c in man['checks']]
 res = {}
